@@ -150,8 +150,16 @@ def run_real(case, req=None):
         return out
     out["ctor"] = "ok"
     mw = ModeWrapper(dataset=w, mode=req)
-    saved = mod.np
-    mod.np = NpProxy(real_np, out["calls"])
+    # every generator created through numpy.random.default_rng during the request is recorded, wherever the call sits (the wrapper
+    # module itself, a helper in kappadata.utils, ...)
+    saved = real_np.random.default_rng
+    calls = out["calls"]
+
+    def rec_default_rng(seed=None, *a, **kw):
+        rec = RecRng(saved(seed, *a, **kw))
+        calls.append({"seed": None if seed is None else int(seed), "tape": rec.tape})
+        return rec
+    real_np.random.default_rng = rec_default_rng
     # an unseeded wrapper derives its generator from the global numpy rng: pin it so that a recorded case replays
     real_np.random.seed((case.get("gseed", 0) * 31 + sum(map(ord, req))) % (2 ** 31))
     try:
@@ -160,7 +168,7 @@ def run_real(case, req=None):
         out["res"] = exc_name(e)
         return out
     finally:
-        mod.np = saved
+        real_np.random.default_rng = saved
     out["res"] = "ok"
     names = req.split(" ")
     vals = list(res) if len(names) > 1 else [res]
